@@ -736,9 +736,10 @@ def rule_ag_reg(repo, col):
     okname = False
     for tmpl, arg, call in w.formatter_paths.get('general_formatter', []):
         src = assigns.get(dotted(arg), [(None, None)])[0][0]
-        if src is not None and wrep and any(x is wrep[0]
-                                            for x in ast.walk(src)):
-            okname = True
+        for cand in (src, arg):
+            if cand is not None and wrep and any(x is wrep[0]
+                                                 for x in ast.walk(cand)):
+                okname = True
     col.check(okname, rule, TABLE, 'general_formatter', 'slash-used', gf,
               'the escaped category name names the dataset',
               'the dataset is not named by the escaped category')
